@@ -1,3 +1,4 @@
+import QscModel.Gen.RSing
 import Mathlib.RingTheory.Derivation.Basic
 import Mathlib.Algebra.BigOperators.Intervals
 import Mathlib.Tactic.FieldSimp
@@ -25,7 +26,9 @@ def compθ (a1c a1s a2c a2s c s : K) : Ser K := fun k =>
   if k = 1 then -(a1c * s) + a1s * c else if k = 2 then 2 * (-(a2c * (2*c*s)) + a2s * (c*c - s*s)) else 0
 
 
-theorem g_coeffs_are_triple_product (D : Derivation ℚ K K)
+/-- the statement for the formulas as printed by the CAS (kept as a lemma; the theorem about the **generated**
+definitions is `g_coeffs_are_triple_product` below) -/
+theorem g_coeffs_are_triple_product_printed (D : Derivation ℚ K K)
     (X1c Y1c Y1s X20 X2c X2s Y20 Y2c Y2s Z20 Z2c Z2s kap tau lp c s : K)
     (hcs : c^2 + s^2 - 1 = 0) (dc : D c = 0) (ds : D s = 0) :
     let pos : V3 K := ⟨comp X1c 0 X20 X2c X2s c s, comp Y1c Y1s Y20 Y2c Y2s c s, comp 0 0 Z20 Z2c Z2s c s⟩
@@ -48,5 +51,42 @@ theorem g_coeffs_are_triple_product (D : Derivation ℚ K K)
   · linear_combination (norm := (simp [sqrtg, g0, g1c, g20, g2s, g2c, eq3, er, eθ, eφ, pos, mulS, dotS, crossS, dr, comp, compθ, Finset.sum_range_succ, dc, ds, d2, -mul_eq_zero] <;> ring)) (X1c*Y1s*lp) * hcs
   · linear_combination (norm := (simp [sqrtg, g0, g1c, g20, g2s, g2c, eq3, er, eθ, eφ, pos, mulS, dotS, crossS, dr, comp, compθ, Finset.sum_range_succ, dc, ds, d2, -mul_eq_zero] <;> ring)) (-(X1c)^2*Y1s*c*kap*lp - 2*X1c*Y2c*lp*s + 2*X1c*Y2s*c*lp + 2*X2c*Y1c*lp*s + 2*X2c*Y1s*c*lp - 2*X2s*Y1c*c*lp + 2*X2s*Y1s*lp*s) * hcs
   · linear_combination (norm := (simp [sqrtg, g0, g1c, g20, g2s, g2c, eq3, er, eθ, eφ, pos, mulS, dotS, crossS, dr, comp, compθ, Finset.sum_range_succ, dc, ds, d2, -mul_eq_zero] <;> ring)) (2*(X1c)^2*Y2c*c*kap*lp*s - 2*(X1c)^2*Y2s*(c)^2*kap*lp - (X1c)^2*Y2s*kap*lp + 2*(X1c)^2*Z2c*c*lp*s*tau - 2*(X1c)^2*Z2s*(c)^2*lp*tau - (X1c)^2*Z2s*lp*tau - 2*X1c*X20*Y1s*kap*lp - 2*X1c*X2c*Y1c*c*kap*lp*s - 3*X1c*X2c*Y1s*(c)^2*kap*lp + X1c*X2c*Y1s*kap*lp*(s)^2 - X1c*X2c*Y1s*kap*lp + 2*X1c*X2s*Y1c*(c)^2*kap*lp + X1c*X2s*Y1c*kap*lp - 4*X1c*X2s*Y1s*c*kap*lp*s + X1c*Y1s*(c)^2*(D Z2c) + 2*X1c*Y1s*c*(D Z2s)*s + X1c*Y1s*(D Z20) - X1c*Y1s*(D Z2c)*(s)^2 - X1c*Z20*(D Y1s) + 2*X1c*Z2c*c*(D Y1c)*s + 2*X1c*Z2c*(D Y1s)*(s)^2 + X1c*Z2c*(D Y1s) - 2*X1c*Z2s*(c)^2*(D Y1c) - 2*X1c*Z2s*c*(D Y1s)*s - X1c*Z2s*(D Y1c) + 4*X2c*Y2s*(c)^2*lp + 4*X2c*Y2s*lp*(s)^2 + 4*X2c*Y2s*lp - 4*X2s*Y2c*(c)^2*lp - 4*X2s*Y2c*lp*(s)^2 - 4*X2s*Y2c*lp + 2*(Y1c)^2*Z2c*c*lp*s*tau - 2*(Y1c)^2*Z2s*(c)^2*lp*tau - (Y1c)^2*Z2s*lp*tau + 2*Y1c*Y1s*Z2c*(c)^2*lp*tau + 2*Y1c*Y1s*Z2c*lp*(s)^2*tau + 2*Y1c*Y1s*Z2c*lp*tau - 2*Y1c*Z2c*c*(D X1c)*s + 2*Y1c*Z2s*(c)^2*(D X1c) + Y1c*Z2s*(D X1c) + 2*(Y1s)^2*Z2c*c*lp*s*tau + 2*(Y1s)^2*Z2s*lp*(s)^2*tau + (Y1s)^2*Z2s*lp*tau - Y1s*Z20*(D X1c) - 2*Y1s*Z2c*(c)^2*(D X1c) - Y1s*Z2c*(D X1c) - 2*Y1s*Z2s*c*(D X1c)*s) * hcs
+
+/-- inputs of `calculate_r_singularity` wired as attributes of the object: `d_X1c_d_varphi = D X1c`, … -/
+def wire (D : K → K) (B0 G0 X1c Y1c Y1s X20 X2c X2s Y20 Y2c Y2s Z20 Z2c Z2s kap tau : K) : Gen.RSing.In K :=
+  { B0 := B0, G0 := G0, X1c := X1c, X20 := X20, X2c := X2c, X2s := X2s, Y1c := Y1c, Y1s := Y1s, Y20 := Y20, Y2c := Y2c,
+    Y2s := Y2s, Z20 := Z20, Z2c := Z2c, Z2s := Z2s, curvature := kap, d_X1c_d_varphi := D X1c, d_Y1c_d_varphi := D Y1c,
+    d_Y1s_d_varphi := D Y1s, d_Z20_d_varphi := D Z20, d_Z2c_d_varphi := D Z2c, d_Z2s_d_varphi := D Z2s, torsion := tau }
+
+/-- **The Jacobian coefficients of the code are those of the triple product.**  For the position vector
+`r = r0 + X n + Y b + Z t` with `X = r X1c cosϑ + r²(X20 + X2c cos2ϑ + X2s sin2ϑ)` etc. (Frenet–Serret with
+`ℓ' = lp = |G0|/B0`), the coefficients of `r¹, r², r³` of `∂r/∂r · (∂r/∂ϑ × ∂r/∂φ)` are the GENERATED
+`Gen.RSing.g0`, `g1c cosϑ (+ 2ℓ'·eq3·sinϑ, which vanishes by the O(r²) constraint eq3)`, and
+`g20 + g2c cos2ϑ + g2s sin2ϑ`. -/
+theorem g_coeffs_are_triple_product (D : Derivation ℚ K K) (o : Ops K)
+    (B0 G0 X1c Y1c Y1s X20 X2c X2s Y20 Y2c Y2s Z20 Z2c Z2s kap tau lp c s : K) (hlp : o.abs G0 / B0 = lp)
+    (hcs : c^2 + s^2 - 1 = 0) (dc : D c = 0) (ds : D s = 0) :
+    let pos : V3 K := ⟨comp X1c 0 X20 X2c X2s c s, comp Y1c Y1s Y20 Y2c Y2s c s, comp 0 0 Z20 Z2c Z2s c s⟩
+    let eθ : V3 K := ⟨compθ X1c 0 X2c X2s c s, compθ Y1c Y1s Y2c Y2s c s, compθ 0 0 Z2c Z2s c s⟩
+    let er : V3 K := ⟨dr pos.n, dr pos.b, dr pos.t⟩
+    let eφ : V3 K := ⟨fun k => D (pos.n k) + lp * (kap * pos.t k - tau * pos.b k),
+                       fun k => D (pos.b k) + lp * tau * pos.n k,
+                       fun k => D (pos.t k) - lp * kap * pos.n k + (if k = 0 then lp else 0)⟩
+    let sqrtg := dotS er (crossS eθ eφ)
+    let i := wire D B0 G0 X1c Y1c Y1s X20 X2c X2s Y20 Y2c Y2s Z20 Z2c Z2s kap tau
+    let eq3 := X1c*Y20 - X1c*Y2c - X20*Y1c + X2c*Y1c + X2s*Y1s
+    sqrtg 1 = Gen.RSing.g0 o i ∧ sqrtg 2 = Gen.RSing.g1c o i * c + 2 * lp * eq3 * s ∧
+    sqrtg 3 = Gen.RSing.g20 o i + Gen.RSing.g2c o i * (c*c - s*s) + Gen.RSing.g2s o i * (2*c*s) := by
+  intro pos eθ er eφ sqrtg i eq3
+  have h := g_coeffs_are_triple_product_printed D X1c Y1c Y1s X20 X2c X2s Y20 Y2c Y2s Z20 Z2c Z2s kap tau lp c s hcs dc ds
+  dsimp only at h
+  have e0 : Gen.RSing.g0 o i = X1c*Y1s*lp := by
+    simp only [Gen.RSing.g0, i, wire, hlp]; ring
+  have e1 : Gen.RSing.g1c o i = -(X1c)^2*Y1s*kap*lp + 2*X1c*Y2s*lp + 2*X20*Y1s*lp + 2*X2c*Y1s*lp - 2*X2s*Y1c*lp := by
+    simp only [Gen.RSing.g1c, i, wire, hlp, Nat.cast_ofNat]; ring
+  rw [e0, e1]
+  refine ⟨h.1, h.2.1, h.2.2.trans ?_⟩
+  simp only [Gen.RSing.g20, Gen.RSing.g2c, Gen.RSing.g2s, i, wire, hlp, Nat.cast_ofNat]
+  ring
 #print axioms g_coeffs_are_triple_product
 end RSing
